@@ -1631,6 +1631,16 @@ func (x *c01) ruleR5() {
 					if c == "index" && recvExpr != nil && bounded(e, recvExpr) {
 						return true
 					}
+					if c == "map-store" && len(e.Args) == 2 {
+						// SetMapIndex(k, reflect.Value{}) deletes the key: no "assignment to entry in nil
+						// map" (deleting from a nil map is a no-op), only the key can be unhashable
+						if cl, ok := ast.Unparen(e.Args[1]).(*ast.CompositeLit); ok && len(cl.Elts) == 0 {
+							c = "map-key"
+							if hashableKey(e.Args[0]) {
+								return true
+							}
+						}
+					}
 					if c == "map-key" && len(e.Args) == 1 && hashableKey(e.Args[0]) {
 						return true
 					}
@@ -1662,6 +1672,17 @@ func (x *c01) ruleR5() {
 				key := x.key(x.label(l) + ":" + c)
 				o := x.r.Ob(R, key, classes[c])
 				if listed[l] != nil {
+					// the clause must also recognise the message of this class of fault (added after
+					// defects where the opcode was listed but one message was not: "hash of unhashable
+					// type" under OpIf, the allocator's error under OpMakeChan)
+					if frags, ok := c01ClassMessages[c]; ok && !c01ClauseMentions(cls.Pkg.TypesInfo, listed[l], frags) {
+						if why, ok := c01Exceptions[R+" "+key+":message"]; ok {
+							o.Trivial("exception: %s", why)
+							continue
+						}
+						o.Bad("%s is listed in %s but its clause recognises no message of the %s class (one of %q): that fault is not classified and escapes as a fatal error, a host panic", x.label(l), cls.Name(), c, frags)
+						continue
+					}
 					o.OK("%s contains a %s fault site and is listed in %s's opcode switch", x.label(l), c, cls.Name())
 					continue
 				}
@@ -1680,4 +1701,38 @@ func (x *c01) ruleR5() {
 func c01IsString(t types.Type) bool {
 	b, ok := t.Underlying().(*types.Basic)
 	return ok && b.Info()&types.IsString != 0
+}
+
+// c01ClassMessages: fragments of the panic messages of each fault class, as the Go runtime and package
+// reflect word them; the classifier's clause for an opcode with a site of the class must mention one.
+var c01ClassMessages = map[string][]string{
+	"index":             {"index out of range"},
+	"slice":             {"slice bounds out of range", "slice index out of bounds"},
+	"map-store":         {"assignment to entry in nil map"},
+	"map-key":           {"hash of unhashable type"},
+	"send":              {"send on closed channel"},
+	"select-send":       {"send on closed channel"},
+	"close":             {"close of closed channel", "close of nil channel"},
+	"make":              {"makeslice", "makechan", "MakeSlice", "MakeChan"},
+	"divide":            {"integer divide by zero"},
+	"interface-compare": {"comparing uncomparable"},
+}
+
+// c01ClauseMentions reports whether the clause (following fallthrough into the next clauses) contains a
+// string constant holding one of the fragments.
+func c01ClauseMentions(info *types.Info, cc *ast.CaseClause, frags []string) bool {
+	found := false
+	ast.Inspect(cc, func(m ast.Node) bool {
+		if bl, ok := m.(*ast.BasicLit); ok && bl.Kind == token.STRING {
+			if s, ok := stringValue(info, bl); ok {
+				for _, f := range frags {
+					if strings.Contains(s, f) {
+						found = true
+					}
+				}
+			}
+		}
+		return true
+	})
+	return found
 }
